@@ -308,6 +308,8 @@ def run(tier='quick'):
                           'localtime, strtod, setlocale, getenv ...), so that a time point written is the time point read '
                           'under every TZ', floor=1)
     _extra.environment_independent(prog, chk, B16)
+    B17 = chk.rule('B17', 'a mutator of the table classes stores what it is given whatever is stored already: no argument-carrying write is skipped on a comparison of the argument with a value that a getter or accessor computed from the stored row (an update() that returns early when get(id) == row leaves a NULL that reads back as a default in place)', floor=10)
+    _extra.writes_not_skipped_on_stored_state(prog, cg, eff, chk, B17, _extra._mutators_of(prog, ('djinterop::engine::v2::track_table', 'djinterop::engine::v2::playlist_table', 'djinterop::engine::v2::playlist_entity_table', 'djinterop::engine::v2::change_log_table', 'djinterop::engine::v2::information_table')))
     return chk.finish('statement-level analysis of the five 2.x table classes: %d statement instances '
                       'parsed from string literals, binds and sinks resolved to row fields through the '
                       'type-checked AST, names resolved against the DDL of all %d 2.x versions' % (
